@@ -292,3 +292,13 @@ class Check:
             " ".join("%s=%s" % (k, v) for k, v in self.coverage.items()
                      if isinstance(v, (int, bool)))), flush=True)
         return 0
+
+
+INJECT_RUSTFLAGS = '--cfg dinfuehr_dora_verif --cfg dinfuehr_dora_verif="inject"'
+
+
+def build_inject():
+    """Runtime + startup static libraries with the collection-point injection hook compiled in
+    (cfg dinfuehr_dora_verif="inject"); executables are produced by the ordinary compiler and linked
+    against these libraries.  Returns the directory holding libdora_runtime.a / libdora_startup.a."""
+    return cargo_build_repo("inject", ["dora-runtime", "dora-startup"], rustflags=INJECT_RUSTFLAGS)
